@@ -95,7 +95,7 @@ Record state := {
 Definition init : state :=
   {| blobs := []; idx := []; gnodes := []; strays := []; autogc := true |}.
 
-Inductive res := Ok | ENotFound | EExists | EHang.
+Inductive res := Ok | ENotFound | EExists | EHang | ECanceled.
 
 (* fixF1/F3/F4/F13: the repairs of DESIGN section 6; fixStale: resolver.Memory.Tag forgets a
    moved reference in the old tag set; fixLeaf: Delete does not queue dangling leaves that
@@ -386,6 +386,30 @@ Definition gc (c : cfg) (kl : bool) (ords : nat -> list nat) (st : state) : stat
         autogc := autogc st |}, Ok)
   end.
 
+(* ---------- GC whose context is cancelled during the sweep ----------
+   The sweep walks blobs/<alg>/ in directory order and tests the context before every entry.
+   [order] = the entries in that order, [k] = the number of entries handled before the
+   context was found done.  The index has been rebuilt (and saved) before the sweep. *)
+Inductive sentry := SBlob (n : nat) | SStray (id : nat).
+
+Definition swept_blob (n : nat) (l : list sentry) : bool :=
+  existsb (fun e => match e with SBlob m => Nat.eqb m n | SStray _ => false end) l.
+Definition swept_stray (id : nat) (l : list sentry) : bool :=
+  existsb (fun e => match e with SStray m => Nat.eqb m id | SBlob _ => false end) l.
+
+Definition gc_cancel (c : cfg) (kl : bool) (ords : nat -> list nat) (order : list sentry) (k : nat)
+           (st : state) : state * res :=
+  match gc_index c kl ords st with
+  | None => (st, EHang)
+  | Some (ix, g) =>
+    let handled := firstn k order in
+    ({| blobs := filter (fun n => memb n g || negb (swept_blob n handled)) (blobs st);
+        idx := ix;
+        gnodes := dedup g;
+        strays := filter (fun s => sweep_stray s || negb (swept_stray (s_id s) handled)) (strays st);
+        autogc := autogc st |}, ECanceled)
+  end.
+
 (* ---------- histories ---------- *)
 Definition ord_id (k : nat) (l : list nat) : list nat := l.
 
@@ -417,6 +441,86 @@ Definition step (c : cfg) (kl : bool) (st : state) (o : op) : state * res :=
     ({| blobs := blobs st; idx := ix;
         gnodes := dedup (flat_map (clo c (blobs st)) (map snd ix));
         strays := strays st; autogc := true |}, Ok)
+  end.
+
+(* ---------- persistence: index.json, AutoSaveIndex, SaveIndex, reload ----------
+   [disk] = the entries of index.json as saveIndex writes them: one entry per tag, one
+   digest-only entry per descriptor that has a by-digest reference and no tag.
+   loadIndex gives every entry its by-digest reference (and its tag). *)
+Definition save_form (ix : list (ref * nat)) : list (ref * nat) :=
+  filter (fun e => match fst e with
+                   | RTag _ => true
+                   | RDig _ => negb (memb (snd e) (tagged_nodes ix))
+                   | RStale _ => false end) ix.
+
+Definition load_form (d : list (ref * nat)) : list (ref * nat) :=
+  flat_map (fun e => match fst e with
+                     | RTag t => [(RDig (snd e), snd e); (RTag t, snd e)]
+                     | RDig _ => [(RDig (snd e), snd e)]
+                     | RStale _ => [] end) d.
+
+Record pstate := { mem : state; disk : list (ref * nat); autosave : bool }.
+Definition pinit : pstate := {| mem := init; disk := []; autosave := true |}.
+
+Inductive pop :=
+| PO (o : op)                       (* an operation of the store *)
+| PSave                             (* Store.SaveIndex *)
+| PAutoSave (b : bool)              (* Store.AutoSaveIndex = b *)
+| PGCCancel (early : bool) (order : list sentry) (k : nat).
+  (* GC with a context that is cancelled: before the index is rebuilt ([early]) or in the
+     sweep after [k] entries of [order] *)
+
+Definition ref_code (r : ref) : nat * nat :=
+  match r with RTag t => (0, t) | RDig n => (1, n) | RStale t => (2, t) end.
+Definition entry_eqb (a b : ref * nat) : bool := ref_eqb (fst a) (fst b) && Nat.eqb (snd a) (snd b).
+Fixpoint entries_eqb (a b : list (ref * nat)) : bool :=
+  match a, b with
+  | [], [] => true
+  | x :: a', y :: b' => entry_eqb x y && entries_eqb a' b'
+  | _, _ => false
+  end.
+
+Definition is_ok (r : res) : bool := match r with Ok => true | _ => false end.
+
+(* the store wrote index.json iff [b] *)
+Definition saved (b : bool) (p : pstate) (m : state) : pstate :=
+  {| mem := m; disk := if b then save_form (idx m) else disk p; autosave := autosave p |}.
+
+(* oci.New on the directory: the reference map and the graph come from index.json *)
+Definition reload (c : cfg) (m : state) (d : list (ref * nat)) : state :=
+  let ix := load_form d in
+  {| blobs := blobs m; idx := ix;
+     gnodes := dedup (flat_map (clo c (blobs m)) (map snd ix));
+     strays := strays m; autogc := true |}.
+
+Definition pstep (c : cfg) (kl : bool) (p : pstate) (o : pop) : pstate * res :=
+  match o with
+  | PO (OPush n) =>
+    let '(m, r) := push (mem p) n in (saved (autosave p && manifest n && is_ok r) p m, r)
+  | PO (OTag n t) =>
+    let '(m, r) := tag c (mem p) n t in (saved (autosave p && is_ok r) p m, r)
+  | PO (OUntag t) =>
+    let '(m, r) := untag (mem p) t in (saved (autosave p && is_ok r) p m, r)
+  | PO (ODelete n) =>
+    (* delete() saves when it removed or added a reference *)
+    let '(m, r) := delete c ord_id (mem p) n in
+    (saved (autosave p && negb (entries_eqb (idx m) (idx (mem p)))) p m, r)
+  | PO OGC =>
+    let '(m, r) := gc c kl (fun _ => candidates (idx (mem p))) (mem p) in
+    (saved (autosave p && is_ok r) p m, r)
+  | PO OReopen =>
+    ({| mem := reload c (mem p) (disk p); disk := disk p; autosave := true |}, Ok)
+  | PO OForeign =>
+    let d := filter (fun e => match fst e with RTag _ => true | _ => false end) (disk p) in
+    ({| mem := reload c (mem p) d; disk := d; autosave := true |}, Ok)
+  | PO o' =>
+    let '(m, r) := step c kl (mem p) o' in (saved false p m, r)
+  | PSave => (saved true p (mem p), Ok)
+  | PAutoSave b => ({| mem := mem p; disk := disk p; autosave := b |}, Ok)
+  | PGCCancel true _ _ => (p, ECanceled)
+  | PGCCancel false order k =>
+    let '(m, r) := gc_cancel c kl (fun _ => candidates (idx (mem p))) order k (mem p) in
+    (saved (autosave p && match r with ECanceled => true | _ => false end) p m, r)
   end.
 
 End Model.
